@@ -86,15 +86,38 @@ theorem translateIndexed_w {row : InstrRow} {o : Operand} {p : Pkg} (h : transla
 theorem translateExtIndirect_w {row : InstrRow} {o : Operand} {p : Pkg} (h : translateExtIndirect o row = .ok p) :
     PkgW row p ∧ LeftOK o p := by
   unfold translateExtIndirect at h
-  simp only [bind, Except.bind, pure, Except.pure, throw, throwThe, MonadExceptOf.throw] at h
-  repeat' split at h
-  all_goals first
+  rcases o with ⟨kind, text, value, left, right⟩
+  cases left <;> cases right
+  all_goals simp only [bind, Except.bind, pure, Except.pure, throw, throwThe, MonadExceptOf.throw, Bool.and_false,
+    Bool.false_eq_true, if_false] at h
+  case val.some =>
+    by_cases hc : (row.ind.isNone || row.ind == some 0) = true
+    · rw [if_pos hc] at h; cases h
+    rw [if_neg hc] at h
+    generalize translateIndexed.match_3 (fun x => Bool) (Side.val _) _ _ _ = b at h
+    repeat' split at h
+    all_goals first
     | (cases h; done)
     | (cases h; exact ⟨.of_nil (Nat.le_refl _) rfl, fun h => absurd rfl h⟩)
     | (obtain ⟨h1, h2⟩ := translateOffset_w h
-       exact ⟨h1, leftOK_of (by assumption) h2⟩)
+       exact ⟨h1, leftOK_of rfl h2⟩)
+  case text.some =>
+    by_cases hc : (row.ind.isNone || row.ind == some 0) = true
+    · rw [if_pos hc] at h; cases h
+    rw [if_neg hc] at h
+    generalize translateIndexed.match_3 (fun x => Bool) (Side.text _) _ _ _ = b at h
+    generalize (if (_ == ['A']) = true then 22 else if (_ == ['B']) = true then 21 else 27 : Nat) = k at h
+    repeat' split at h
+    all_goals first
+    | (cases h; done)
+    | (cases h; exact ⟨.of_nil (Nat.le_refl _) rfl, fun h => absurd rfl h⟩)
     | (obtain ⟨h1, h2⟩ := translateOffset_w h
-       exact ⟨h1, leftOK_of_text (by assumption)⟩)
+       exact ⟨h1, leftOK_of_text rfl⟩)
+  all_goals
+    repeat' split at h
+    all_goals first
+    | (cases h; done)
+    | (cases h; exact ⟨.of_nil (Nat.le_refl _) rfl, fun h => absurd rfl h⟩)
 
 theorem translatePseudo_w {row : InstrRow} {o : Operand} {p : Pkg} (h : translatePseudo o row = .ok p) :
     PkgW row p ∧ LeftOK o p := by
